@@ -13,6 +13,7 @@ import (
 	"encoding/json"
 	"fmt"
 	"math/rand"
+	"regexp"
 	"strconv"
 	"strings"
 	"time"
@@ -33,7 +34,8 @@ type c18Seg struct {
 
 type c18Case struct {
 	Ja   bool       `json:"ja"`
-	Expr [][]c18Seg `json:"expr"`
+	Raw  *string    `json:"raw,omitempty"`  // the parameter bytes; absent: the canonical spelling of Expr
+	Expr [][]c18Seg `json:"expr,omitempty"` // absent: raw byte stream (malformed / escaped input)
 }
 
 type c18Obs struct {
@@ -119,12 +121,21 @@ func (c18) Run(raw json.RawMessage) Result {
 	if err := json.Unmarshal(raw, &c); err != nil {
 		die("C18: bad case: %v", err)
 	}
-	text := c18Render(c.Expr)
+	var text string
+	if c.Raw != nil {
+		text = *c.Raw
+	} else {
+		text = c18Render(c.Expr)
+	}
+	if strings.ContainsAny(text, "'\n") {
+		die("C18: raw parameter contains a single quote or newline: %q", text)
+	}
 	cmd := "a"
 	if c.Ja {
 		cmd = "ja"
 	}
-	r := RunMurex(cmd+" "+text, 30*time.Second)
+	// single quotes hand the bytes to the builtin untouched by the shell parser
+	r := RunMurex(cmd+" '"+text+"'", 30*time.Second)
 	o := c18Obs{Items: []string{}}
 	switch {
 	case r.Timeout:
@@ -163,7 +174,8 @@ func (c18) Run(raw json.RawMessage) Result {
 			o.Stderr = o.Stderr[:300]
 		}
 	}
-	coq := coqlit.Record("c_ja", coqlit.Bool(c.Ja), "c_expr", c18Coq(c.Expr),
+	coq := coqlit.Record("c_ja", coqlit.Bool(c.Ja), "c_raw", coqlit.Bytes(text),
+		"c_expr", coqlit.Option(c.Expr != nil, c18Coq(c.Expr)),
 		"c_obs", coqlit.Record("o_class", coqlit.N(uint64(o.Class)), "o_items", coqlit.BytesList(o.Items)))
 	nb, nr := 0, 0
 	for _, g := range c.Expr {
@@ -181,6 +193,13 @@ func (c18) Run(raw json.RawMessage) Result {
 	// evidence keeps at most 12 items
 	if len(o.Items) > 12 {
 		o.Items = o.Items[:12]
+	}
+	if c.Expr == nil {
+		kind := "raw"
+		if strings.Contains(text, "\\") {
+			kind = "raw-esc"
+		}
+		return Result{Obs: o, Coq: coq, Nontrivial: strings.ContainsAny(text, "[]"), Class: fmt.Sprintf("%s/%s/class=%d", cmd, kind, o.Class)}
 	}
 	return Result{Obs: o, Coq: coq, Nontrivial: nb > 0, Class: fmt.Sprintf("%s/blocks=%d/ranges=%d", cmd, nb, min(nr, 3))}
 }
@@ -364,6 +383,33 @@ func (c18) Gen(seed int64, tier string, emit func(any)) {
 		}
 		emit(c18Case{Ja: ja, Expr: e})
 	}
+	// 4. raw byte strings: escapes, unbalanced brackets, odd dots, empty blocks
+	for _, raw := range c18RawFixed {
+		emit(c18Case{Ja: false, Raw: c18S(raw)})
+		emit(c18Case{Ja: true, Raw: c18S(raw)})
+	}
+	nraw := 1500
+	if thorough {
+		nraw = 12000
+	}
+	for i := 0; i < nraw; i++ {
+		var raw string
+		if r.Intn(3) == 0 {
+			raw = c18Mutate(r, c18Render(c18Small(r)))
+		} else {
+			n := r.Intn(11)
+			b := make([]byte, n)
+			for k := range b {
+				b[k] = c18RawAlphabet[r.Intn(len(c18RawAlphabet))]
+			}
+			raw = string(b)
+		}
+		if !c18RawSafe(raw) {
+			continue
+		}
+		emit(c18Case{Ja: r.Intn(3) == 0, Raw: c18S(raw)})
+	}
+
 	// 3. exhaustive small odometers: block sizes 1..3 for 1, 2 and 3 blocks
 	for a := 1; a <= 3; a++ {
 		for b := 0; b <= 3; b++ {
@@ -383,4 +429,110 @@ func (c18) Gen(seed int64, tier string, emit func(any)) {
 			}
 		}
 	}
+}
+
+// ---- raw byte stream ----------------------------------------------------------
+
+var c18RawFixed = []string{
+	"", "x", "[", "]", "x[", "x]", "][", "[[1]]", "[1]]", "[1..3", "1..3]", "x\\", "\\", "\\\\", "a\\\\b",
+	"[]", "x[]y", "[,]", "[,,]", "[1,,2]", "[1,]", "[,1]", "[][]", "[],[]", ",", ",,", "a,", ",a", "[1],[2]",
+	"\\[1\\]", "[1\\,2]", "[1\\,2,3]", "[1\\.,2]", "[1\\..3]", "[1.\\.3]", "[1\\]2]", "x\\,y", "x\\,y,z", "[a\\,b,c]x",
+	"[..]", "[a..]", "[q..]", "[..3]", "[3..]", "[1..2..3]", "[1...3]", "[1....3]", "[.]", "[1.5]", "[1.2.3]",
+	"[-1..-3]", "[+1..3]", "[1..+3]", "[-..3]", "[1..3,5..4]x", "[1..3,x,07..09]", "[0..3]", "[00..3]", "[3..00]",
+	"[1..22..3]", "[1..2,3..4]", "[12]", "[1,2,3]", "[01,2]", "[10,9..7]", "[1..3]x", "x[1..3]", "1..3", "x.y", "x..y", "..",
+	"[1..3][", "[1..3]]", "[1,[2]]", "[1\\[2]", "[\\]", "[\\\\]", "[1..3\\]", "[a,b][1..2],z[3..4]",
+}
+
+const c18RawAlphabet = "01239-q\\,[].."
+
+func c18Small(r *rand.Rand) [][]c18Seg {
+	var segs []c18Seg
+	if r.Intn(2) == 0 {
+		segs = append(segs, c18Seg{Lit: c18S([]string{"x", "q-", "9"}[r.Intn(3)])})
+	}
+	nb := 1 + r.Intn(2)
+	for b := 0; b < nb; b++ {
+		var es []c18Elem
+		for k := 0; k < 1+r.Intn(3); k++ {
+			if r.Intn(2) == 0 {
+				es = append(es, c18Elem{S: c18S([]string{"q", "", "1", "07", "12"}[r.Intn(5)])})
+			} else {
+				es = append(es, c18Elem{Lo: c18S(strconv.Itoa(r.Intn(7) - 2)), Hi: c18S(strconv.Itoa(r.Intn(7) - 2))})
+			}
+		}
+		segs = append(segs, c18Seg{Block: es})
+		if r.Intn(3) == 0 {
+			segs = append(segs, c18Seg{Lit: c18S("y")})
+		}
+	}
+	return [][]c18Seg{segs}
+}
+
+// c18Mutate deletes, inserts or replaces one or two bytes of a valid spelling.
+func c18Mutate(r *rand.Rand, s string) string {
+	b := []byte(s)
+	for k := 0; k < 1+r.Intn(2); k++ {
+		ch := c18RawAlphabet[r.Intn(len(c18RawAlphabet))]
+		switch {
+		case len(b) == 0 || r.Intn(3) == 0:
+			i := r.Intn(len(b) + 1)
+			b = append(b[:i], append([]byte{ch}, b[i:]...)...)
+		case r.Intn(2) == 0:
+			i := r.Intn(len(b))
+			b = append(b[:i], b[i+1:]...)
+		default:
+			b[r.Intn(len(b))] = ch
+		}
+	}
+	return string(b)
+}
+
+var c18RxIntRange = regexp.MustCompile(`^([+-]?[0-9]+)\.\.([+-]?[0-9]+)$`)
+var c18RxAltBase = regexp.MustCompile(`[0-9a-zA-Z]+\.\.[0-9a-zA-Z]+[.x][0-9]+`)
+
+// c18RawSafe keeps the raw stream inside what Model/MkArrayParse.v models: a
+// piece between brackets / commas that contains `..` must be made of digits,
+// signs, dots and backslashes only (no letter, date, named or number-base
+// ranges), digit runs are short, and the expansion stays small.
+func c18RawSafe(raw string) bool {
+	if strings.ContainsAny(raw, "'\n") {
+		return false
+	}
+	run := 0
+	for i := 0; i < len(raw); i++ {
+		if raw[i] >= '0' && raw[i] <= '9' {
+			run++
+			if run > 2 {
+				return false
+			}
+		} else {
+			run = 0
+		}
+	}
+	total := 1
+	for _, piece := range strings.FieldsFunc(raw, func(c rune) bool { return c == '[' || c == ']' || c == ',' }) {
+		flat := strings.ReplaceAll(piece, "\\", "")
+		if !strings.Contains(flat, "..") {
+			continue
+		}
+		for i := 0; i < len(flat); i++ {
+			c := flat[i]
+			if !(c >= '0' && c <= '9' || c == '.' || c == '-' || c == '+') {
+				return false
+			}
+		}
+		if c18RxAltBase.MatchString(flat) {
+			return false
+		}
+		if m := c18RxIntRange.FindStringSubmatch(flat); m != nil {
+			a, _ := strconv.Atoi(m[1])
+			b, _ := strconv.Atoi(m[2])
+			d := a - b
+			if d < 0 {
+				d = -d
+			}
+			total *= d + 1
+		}
+	}
+	return total <= 400
 }
